@@ -427,6 +427,10 @@ private:
       if (session.fragmentBuffer.size() > _maxFrameSize)
       {
         tooLarge = true;
+        // The message can never be delivered: release what was accumulated so
+        // that later fragments cannot keep growing it (the session is failed below).
+        session.fragmentBuffer.clear();
+        session.fragmentOpcode = WsOpcode::CONTINUATION;
       }
       else if (frame.fin)
       {
@@ -441,11 +445,19 @@ private:
     // Fire callbacks outside lock
     if (tooLarge)
     {
+      // Fail the connection like the frame-level TooLarge path in onUpgradedData
+      // (RFC 6455 7.1.7). Leaving the session in place would let the peer keep
+      // appending continuation frames to fragmentBuffer without bound.
       sendClose(sid, 1009, "Message Too Big");
       if (_onError)
       {
         _onError(sid, "Message exceeded maxFrameSize");
       }
+      {
+        std::lock_guard<std::mutex> lock(_wsMutex);
+        _sessions.erase(sid);
+      }
+      closeSession(sid);
       return;
     }
 
